@@ -159,12 +159,28 @@ func validateProtocolSequenceNames(env *Environment, errorSink *validation.Error
 }
 
 func validateStreams(env *Environment, errorSink *validation.ErrorSink) *Environment {
+	// The context is the protocol step while visiting the step's own type, and the
+	// enclosing definition or type everywhere else.
 	VisitWithContext(env, nil, func(self VisitorWithContext[Node], node Node, context Node) {
-		switch node.(type) {
+		switch t := node.(type) {
 		case TypeDefinition:
 			self.VisitChildren(node, node)
+		case *ProtocolStep:
+			self.VisitChildren(node, node)
+		case *GeneralizedType:
+			if step, isStep := context.(*ProtocolStep); isStep && step.Type == Type(t) {
+				// only the dimensionality of the step's own type may be a stream
+				for _, typeCase := range t.Cases {
+					self.Visit(typeCase, node)
+				}
+				if t.Dimensionality != nil {
+					self.Visit(t.Dimensionality, context)
+				}
+				return
+			}
+			self.VisitChildren(node, node)
 		case *Stream:
-			if _, isProtocol := (context).(*ProtocolDefinition); !isProtocol {
+			if _, isStep := context.(*ProtocolStep); !isStep {
 				errorSink.Add(validationError(node, "!streams can only be declared as top-level protocol sequence elements"))
 			}
 
